@@ -108,7 +108,7 @@ func TestC05Suppression(t *testing.T) {
 
 func propSuppression(c *Case) {
 	cfg := foCfg{
-		variant: c.Pick("variant", 3), syncUpdate: c.Bool("SyncUpdate"), syncRead: c.Bool("SyncRead"), failHard: c.Bool("FailHard"),
+		variant: c.Pick("variant", nVariants), syncUpdate: c.Bool("SyncUpdate"), syncRead: c.Bool("SyncRead"), failHard: c.Bool("FailHard"),
 		logger: 0, stats: false,
 	}
 	cfg.maxStaleness = []time.Duration{0, 30 * time.Second}[c.Pick("MaxStaleness", 2)]
